@@ -1,6 +1,7 @@
 package concur
 
 import (
+	"bytes"
 	"encoding/json"
 	"fmt"
 	"math/rand"
@@ -10,6 +11,7 @@ import (
 
 	"github.com/protobom/protobom/pkg/formats"
 	"github.com/protobom/protobom/pkg/native"
+	"github.com/protobom/protobom/pkg/reader"
 	"github.com/protobom/protobom/pkg/sbom"
 	verifsim "github.com/protobom/protobom/pkg/verifsim"
 	"github.com/protobom/protobom/pkg/writer"
@@ -80,6 +82,15 @@ func genC11(verifSeed int64, tier string, idx int) *core.Scenario {
 	case 4:
 		// a component that was never given an identifier (nothing refers to it)
 		wd.NodeList.Nodes = append(wd.NodeList.Nodes, &sbom.Node{Name: "unnamed-id", Type: sbom.Node_PACKAGE})
+	case 5, 6:
+		// a document that already went through protobom once (written, then parsed again): it carries
+		// whatever the unserializers add (tool entries, generated identifiers, normalised fields)
+		f := c11WriteFormats[r.Intn(len(c11WriteFormats))]
+		if b, err := gen.RenderSafe(f, wd, 2); err == nil {
+			if back, perr := reader.New().ParseStream(bytes.NewReader(b)); perr == nil && back != nil && back.NodeList != nil {
+				wd = back
+			}
+		}
 	}
 	sp.Docs = append(sp.Docs, docToB64(wd))
 	g2 := gen.New(r.Int63(), gen.Profile{MaxNodes: maxNodes, Tag: "s"}) // same tag: identifiers overlap with the shared list
